@@ -96,6 +96,24 @@ def run_config(ctx, lw, rng, cfg=None):
     if hph and eta < 1: ctx.bucket("herald_fails_after_detection")
     key = (eta, pd, pc, bool(hph), ps_kind, np.sign(min_det - nph), method)
     nontrivial = eta < 1 or pd > 0 or not pc or bool(h["input"]) or ps_kind != "none" or min_det > 0
+    raised_threshold = bool(cfg.get("raised_threshold") or (not cfg and method == "n_inputs" and rng.random() < 0.15))
+    if raised_threshold:
+        # a threshold that drops a few output states of this very distribution, worth 0.05 % - 0.7 % in total
+        try:
+            vals_ = sorted(emu.Sampler(c, State(occ)).probability_distribution.values())
+        except Exception:  # noqa: BLE001
+            vals_ = []
+        cum_, thr_ = 0.0, None
+        for v_ in vals_:
+            if cum_ + v_ > 0.007:
+                break
+            cum_ += v_
+            thr_ = v_
+        if thr_ is not None and cum_ > 5e-4:
+            lw.settings.sampler_probability_threshold = thr_ * (1 + 1e-9)
+            case["library_threshold"] = lw.settings.sampler_probability_threshold
+        else:
+            raised_threshold = False
     try:
         if cfg.get("default_detector") or (not cfg and rng.random() < 0.08):
             # no detector given: a perfect, private one - whatever was done to the default detector of an earlier sampler
@@ -115,10 +133,21 @@ def run_config(ctx, lw, rng, cfg=None):
         base = {tuple(s): p for s, p in smp.probability_distribution.items()}
     except Exception as e:  # noqa: BLE001
         ctx.count("setup_raised:" + type(e).__name__)
+        lw.settings.sampler_probability_threshold = 1e-9
         return
     if abs(sum(base.values()) - 1) > 1e-6:
-        ctx.count("skipped_unnormalised")
-        return
+        if raised_threshold and 0.992 < sum(base.values()) < 1 and method == "n_inputs":
+            # the library-wide threshold was raised and the backend dropped some output states: sample_N_inputs documents
+            # that it samples from the remaining ones in proportion to their probabilities
+            tot_ = sum(base.values())
+            base = {k_: v_ / tot_ for k_, v_ in base.items()}
+            n = 200000
+            case["N"] = n
+            ctx.bucket("n_inputs_on_truncated_distribution")
+        else:
+            ctx.count("skipped_unnormalised")
+            lw.settings.sampler_probability_threshold = 1e-9
+            return
     threshold_multi_herald = bool(h["output"]) and max(h["output"].values()) > 1 and not pc
     if rng.random() < 0.15:
         # requests the sampler has to refuse come first, on the very object that is then sampled from
@@ -285,6 +314,7 @@ def run_config(ctx, lw, rng, cfg=None):
                       mechanism="sampling_raised:" + type(e).__name__, monitor="driver")
     finally:
         emumon.DET_LOG = None
+        lw.settings.sampler_probability_threshold = 1e-9
     ctx.case(key, nontrivial, sample=case)
     drain_into(ctx, case)
 
